@@ -32,15 +32,16 @@ Definition matches (st : fsys) (obs : list (bytes * option (bytes * Z))) : bool 
    other file found in the directory).
    kind 0: the process was killed -- the snapshot must be the model state after SOME prefix of the op list;
    kind 1: the process returned -- the snapshot must be the state after the complete op list. *)
-Definition chk (c : Z * list (bytes * bytes * Z * Z * list bytes) * list (bytes * bytes * Z) * list (bytes * option (bytes * Z))) : bool :=
-  let '(kind, plan0, before, obs) := c in
-  let plan := map entry_of plan0 in
-  let st := store_of before in
+Definition chk_core (kind : Z) (plan : list entry) (st : fsys) (obs : list (bytes * option (bytes * Z))) : bool :=
   let wfb := nodup_paths (map e_file plan ++ map e_tmp plan) in
   wfb &&
   (if kind =? 0
    then existsb (fun k => matches (crash_state plan k st) obs) (seq 0 (S (List.length (all_ops plan))))
    else matches (exec (all_ops plan) st) obs).
+
+Definition chk (c : Z * list (bytes * bytes * Z * Z * list bytes) * list (bytes * bytes * Z) * list (bytes * option (bytes * Z))) : bool :=
+  let '(kind, plan0, before, obs) := c in
+  chk_core kind (map entry_of plan0) (store_of before) obs.
 
 (* ---------------------------------------------------------------- trace acceptor: the file-system calls the real mlr -I issued
    on the scratch files, in order (recorded by the ptrace supervisor and projected by the driver: calls that failed
@@ -94,3 +95,19 @@ Definition chk_pre (c : Z * Z * list bytes * Z) : bool :=
   let '(pp, fl, names, refused) := c in
   let plan := map (fun f => (f, B "t", 0%N, Missing)) names in
   Bool.eqb (match inplace_ops (pp =? 1) (enc_of fl) plan with [] => true | _ => false end) (refused =? 1).
+
+(* ---------------------------------------------------------------- snapshots with ABSTRACT contents (outputs of many write calls, large
+   compressed files): a content is (tag, literal, n):  tag 0 = the literal bytes (an identifier the driver chose: "O:<name>" for
+   "bitwise the original of <name>", "?" for anything that is neither the original nor a prefix of the output);  tag 1 = n x's =
+   "the first n bytes of the output" (the model's chunks are x's of the observed write sizes, Harness.entry_of_lens, the same
+   abstraction the trace acceptor uses -- Refine.abs_entry).  The driver abstracts a cell to tag 1 only after comparing the
+   bytes with the expected output; everything else is as in [chk]. *)
+Definition acont (c : Z * bytes * Z) : bytes :=
+  let '(tag, lit, n) := c in if tag =? 1 then repeat "x"%char (Z.to_nat n) else lit.
+
+Definition chk_abs (c : Z * list (bytes * bytes * Z * Z * list Z) * list (bytes * (Z * bytes * Z) * Z)
+                        * list (bytes * option ((Z * bytes * Z) * Z))) : bool :=
+  let '(kind, plan0, before, obs) := c in
+  chk_core kind (map entry_of_lens plan0)
+           (store_of (map (fun x => let '(p, a, m) := x in (p, acont a, m)) before))
+           (map (fun x => let '(p, v) := x in (p, match v with Some (a, m) => Some (acont a, m) | None => None end)) obs).
